@@ -3,23 +3,27 @@ import JunoModel.C16.ProofsMig
 /-!
 C16 — Pruning never damages retained blocks, the head state, or L1-unconfirmed history.
 Property theorems (statements only; lemmas are in `Proofs*.lean`). Every theorem of this module is an
-obligation listed in evidence/C16.json with its axioms.
+obligation listed in evidence/C16.json with its axioms. Theorems about code that /repo no longer contains
+(regression witnesses of repaired defects, `*_before_<commit>`) live in `Regress.lean`, not here.
 
 Vocabulary (JunoModel/C16/Model.lean): `Reach c s` — `s` is reachable from the empty node by ANY
 interleaving of store / revert-down-to-the-floor / L1-head writes / L1 and new-head events (stale and
 repeated ones included) / every single batch write of a prune / end of a prune at any cursor
-(= context cancellation) / write error / crash + restart (seeded or unseeded floor) / min-age sample,
-for any configuration `c` (retention incl. 0 and > chain, coalescing, min-age, either state backend).
+(= context cancellation) / write error / crash + restart (seeded or unseeded floor) / the wall clock
+advancing / the min-age ticker / the one-time history-pruner migration, for any configuration `c`
+(retention incl. 0 and > chain, coalescing, min-age over any block timestamps `c.ts`, either state backend).
 `effFloor s` — the retention floor of the running node; `lo d` — the durable floor (what
-`OldestRetainedBlock` reports); `answer` — what the node answers; `twinAnswer` — what the unpruned twin answers.
+`OldestRetainedBlock` reports); `answer` — what the node answers; `twinAnswer` — what the unpruned twin
+answers; `s.cutoff` — the wall clock minus the configured minimum age.
 
-Two variants of the prune procedure are modelled (`Cfg.fixed`). For the REPAIRED procedure
-(`fixed = true`, proposed-fixes/C16-prune-batches-crash-consistent.diff) `Reach` allows a crash or a
-write error after EVERY batch write and the theorems are at full strength. For the procedure as it is at
-the pinned commit (`fixed = false`) `Reach` excludes a crash / write error between two batch writes of
-one prune (`interruptible`), which is why the instances for it carry `_partial`; the excluded case is a
-genuine defect of juno (DESIGN §7 L10) and is recorded below as proved negations with concrete witnesses
-(`orig_interrupted_prune_*`), the same histories the harness replays on the real code.
+/repo contains the REPAIRED prune procedure (`Cfg.fixed = true`, 55da2ac) and the repaired migration
+(`migSkipsMissing`, `migZeroNoop`; 322dd0d, 3c301f0): the theorems below are stated for them.
+Three clauses of the property do NOT hold for the code in /repo; each has a `_partial` theorem (what does
+hold) and a proved negation with a reachable witness, the history the harness replays on the real code:
+ * `ContractStorageLastUpdatedBlock` on the legacy backend after a prune (`last_update_block_*`),
+ * a historical reader held across a prune on the legacy backend (`held_reader_*`),
+ * a new-head event for a block that is no longer on the chain (`stale_new_head_event_*`; full strength
+   for the proposed clamp `Cfg.l2Clamps`).
 -/
 namespace Juno.C16.Props
 open Juno.C16
@@ -36,18 +40,72 @@ theorem floor_bound_l1 (c : Cfg) (sampled : UInt64) (head : Nat) (l1 keep : UInt
 
 /-- New-head path (`onNewBlock`): whenever the guards let an event for block `n` through,
 `n - retained` did not underflow, `n` is strictly below the recorded L1 head, and the target floor is at
-most `min(l1, n) - retained` (`n` is on the local chain, so this is `≤ min(l1, head) - retained`). -/
+most `min(l1, n) - retained`. (That this is `≤ min(l1, head) - retained` needs `n ≤ head`: see
+`floor_bound_head_partial` / `stale_new_head_event_prunes_head_block`.) -/
 theorem floor_bound_l2 (c : Cfg) (sampled l1 n : UInt64) (within : Bool) (h : l2Guard c l1 n = false) :
     c.retained.toNat ≤ n.toNat ∧ (l2Keep c sampled n within).toNat + c.retained.toNat ≤ min l1.toNat n.toNat := by
   have := l2Keep_bound c sampled l1 n within h; omega
 
-/-- With a min-age configured the target floor is never above the min-age sample: always on the L1 path,
-and on the new-head path unless the event's block is itself older than the min-age (deep catch-up, where
-every block up to it is older too). -/
-theorem floor_min_age (c : Cfg) (sampled : UInt64) (hm : c.minAge = true) :
-    (∀ head l1 keep, l1Keep c sampled head l1 = some keep → keep.toNat ≤ sampled.toNat) ∧
-    (∀ n, (l2Keep c sampled n true).toNat ≤ sampled.toNat) :=
-  ⟨fun head l1 keep h => l1Keep_minAge c sampled head l1 keep hm h, fun n => l2Keep_minAge c sampled n hm⟩
+/-- Along any history the floor rises only as far as the event that raises it allows:
+`min(L1 head, block of the event) - retained` (0 if fewer than `retained` blocks exist). The bound is a
+RUNNING MAXIMUM: a floor reached under an earlier, higher head stays after a revert. -/
+theorem floor_bound (c : Cfg) (s : St) (op : Op) (R : Reach c s) (L : Legal c s op) :
+    effFloor (step c s op).1 ≤ max (effFloor s) (allowed c s op) :=
+  (step_facts op (inv_reach R) L).floorLe
+
+/-- Whole histories: after ANY legal history the floor is at most the highest `min(L1 head, local head) -
+retained` that some event (or the migration) of that history was entitled to, and the durable floor has
+not moved down. -/
+theorem floor_bound_history (c : Cfg) (s : St) (R : Reach c s) (ops : List Op) (L : LegalRun c s ops) :
+    effFloor (run c s ops) ≤ max (effFloor s) (maxAllowed c s ops) ∧ lo s.db ≤ lo (run c s ops).db :=
+  floor_run_le ops s R L
+
+/-- `head - retained` for the head the node has NOW. -/
+def headBound (c : Cfg) (s : St) : Nat :=
+  match s.db.height with
+  | some h => h - c.retained.toNat
+  | none => 0
+
+/-- PARTIAL (code in /repo: `onNewBlock` trusts `block.Number`): no step raises the floor above
+`current head - retained`, PROVIDED every new-head event names a block that is on the chain when it is
+handled (`Legal (.evL2 n)` for `l2Clamps = false`). What is missing: `stale_new_head_event_prunes_head_block`. -/
+theorem floor_bound_head_partial (c : Cfg) (hc : c.l2Clamps = false) (s : St) (op : Op) (R : Reach c s)
+    (L : Legal c s op) : effFloor (step c s op).1 ≤ max (effFloor s) (headBound c s) := by
+  have hb := (step_facts op (inv_reach R) L).floorLe
+  have key : allowed c s op ≤ headBound c s := by
+    cases op with
+    | evL2 n =>
+      obtain ⟨_, hl | ⟨h, hh, hn⟩⟩ := L
+      · rw [hc] at hl; cases hl
+      · simp only [allowed, headBound, hh]; cases s.db.l1 <;> simp only <;> omega
+    | evL1 n => simp only [allowed, headBound]; cases s.db.height <;> simp only <;> omega
+    | migrate u => simp only [allowed, headBound]; cases s.db.height <;> cases s.db.l1 <;> simp only <;> omega
+    | _ => simp only [allowed]; omega
+  omega
+
+/-- FULL STRENGTH with the proposed clamp (proposed-fixes/C16-stale-new-head-event.diff: `onNewBlock` ignores
+an event whose block is above the current chain height): no assumption on the events at all — whatever
+block number a new-head event carries, the floor stays at or below `max(old floor, current head - retained)`. -/
+theorem floor_bound_head (c : Cfg) (hc : c.l2Clamps = true) (s : St) (op : Op) (R : Reach c s)
+    (L : Legal c s op) : effFloor (step c s op).1 ≤ max (effFloor s) (headBound c s) := by
+  have hb := (step_facts op (inv_reach R) L).floorLe
+  have key : (step c s op).1 = s ∨ allowed c s op ≤ headBound c s := by
+    cases op with
+    | evL2 n =>
+      cases hh : s.db.height with
+      | none => exact Or.inl (evL2_empty_noop hc hh)
+      | some h =>
+        cases Nat.lt_or_ge h n.toNat with
+        | inl hlt => exact Or.inl (evL2_stale_noop hc hh hlt)
+        | inr hge => right; simp only [allowed, headBound, hh]; cases s.db.l1 <;> simp only <;> omega
+    | evL1 n => right; simp only [allowed, headBound]; cases s.db.height <;> simp only <;> omega
+    | migrate u => right; simp only [allowed, headBound]; cases s.db.height <;> cases s.db.l1 <;> simp only <;> omega
+    | _ => right; simp only [allowed]; omega
+  rcases key with e | e
+  · rw [e]; omega
+  · omega
+
+/-! ## min_age -/
 
 /-- The min-age sample is right: on non-decreasing block timestamps `FindOldestBlockAtOrAfter` returns
 the LOWEST block of `[lower, upper]` at or after the cut-off (so no block younger than the min-age is
@@ -59,18 +117,326 @@ theorem min_age_sample_spec (ts : Nat → Nat) (lower upper cutoff : Nat) (hm : 
     | none => ∀ i, i ≤ upper → ts i < cutoff :=
   findOldest_spec ts lower upper cutoff hm hbelow
 
-/-- Along any history the floor rises only as far as the event that raises it allows:
-`min(L1 head, local head) - retained` (0 if fewer than `retained` blocks exist). Both variants. -/
-theorem floor_bound (c : Cfg) (s : St) (op : Op) (R : Reach c s) (L : Legal c s op) :
-    effFloor (step c s op).1 ≤ max (effFloor s) (allowed c s op) :=
-  (step_facts op (inv_reach R) L).floorLe
+/-- THE MIN-AGE CLAUSE. With a minimum age configured and non-decreasing block timestamps, in EVERY
+reachable state every block below the retention floor is older than the minimum age: its timestamp is
+before `now - minAge`. The sample is not an input: it is what `seedFloor` / the ticker's `sampleHeight`
+(binary search over the stored headers) / the end of a prune compute from the timestamps `c.ts` and the
+clock; the "deep catch-up" bypass of `onNewBlock` is taken exactly when the event's block is itself older
+than the minimum age; the clock only advances; the migration computes its own floor the same way. Covers
+interruption and restart (re-seeded sample) at any point. -/
+theorem min_age_respected (c : Cfg) (hma : c.minAge = true) (hm : Mono c.ts) (s : St) (R : Reach c s) :
+    ∀ n, n < effFloor s → c.ts n < s.cutoff :=
+  age_of_reach R hm hma
 
-/-- Whole histories: after ANY legal history the floor is at most the highest `min(L1 head, local head) -
-retained` that some event (or the migration) of that history was entitled to, and the durable floor has
-not moved down. -/
-theorem floor_bound_history (c : Cfg) (s : St) (R : Reach c s) (ops : List Op) (L : LegalRun c s ops) :
-    effFloor (run c s ops) ≤ max (effFloor s) (maxAllowed c s ops) ∧ lo s.db ≤ lo (run c s ops).db :=
-  floor_run_le ops s R L
+/-! ## floor_monotone -/
+
+/-- The durable floor never moves down — across stores, reverts, prunes, interruptions and restarts. -/
+theorem floor_monotone (c : Cfg) (s : St) (op : Op) (R : Reach c s) (L : Legal c s op) :
+    lo s.db ≤ lo (step c s op).1.db :=
+  (step_facts op (inv_reach R) L).loMono
+
+/-- Within one process (no crash, no migration-then-start) the shared `RetentionFloor` never moves down
+(readers never see it lower). -/
+theorem shared_floor_monotone (c : Cfg) (s : St) (op : Op) (R : Reach c s) (L : Legal c s op)
+    (hop : (∀ seed, op ≠ .crash seed) ∧ ∀ u, op ≠ .migrate u) :
+    s.mem.floorState.toNat ≤ (step c s op).1.mem.floorState.toNat :=
+  (step_facts op (inv_reach R) L).fsMono hop
+
+/-- `raiseTo` / `pruneUpto`: the floor word becomes exactly `max(old, keep)`: no underflow at `keep = 0`
+(guarded), no overflow; `Seed` on a fresh floor gives `max(oldest, 1)` (floor = `max(oldest,1) - 1`). -/
+theorem shared_floor_arith (st keep o : UInt64) :
+    (raiseForPrune st keep).toNat = (if keep.toNat = 0 then st.toNat else max st.toNat keep.toNat) ∧
+    (seedState 0 o).toNat = max o.toNat 1 :=
+  ⟨raiseForPrune_toNat st keep, seedState_zero o⟩
+
+
+/-! ## retained_untouched -/
+
+/-- After ANY interleaving of store / revert / L1-head / events / prune batches / cancellation / write error /
+crash after any batch write / restart / migration: every query — Reader API, retention probe, events,
+historical state by number and by hash — about a block at or above the floor answers exactly what the
+unpruned twin answers. (Stated for every variant; for the procedure before 55da2ac `Reach` excludes the
+interruption between two batch writes, see Regress.lean.) -/
+theorem retained_untouched (c : Cfg) (s : St) (R : Reach c s) (h : Nat) (hh : s.db.height = some h)
+    (q : Q) (n : Nat) (hn : effFloor s ≤ n) : answer c s q n = twinAnswer (some h) q n := by
+  have I := inv_reach R
+  unfold Inv at I; rw [hh] at I; obtain ⟨a, IA, _⟩ := I
+  by_cases hle : n ≤ h
+  · have : answer c s q n = .ok :=
+      answer_ok_above hh IA q n (by unfold effFloor at hn; rw [lo_of_inv hh IA] at hn; exact hn) hle
+    rw [this]; simp [twinAnswer, hle]
+  · exact answer_beyond_head hh IA q n (by omega)
+
+/-- Historical state is served from ONE BLOCK BELOW the floor (through the seeded `RetentionFloor`),
+and answers like the twin. -/
+theorem state_one_below_floor (c : Cfg) (s : St) (R : Reach c s) (h : Nat) (hh : s.db.height = some h)
+    (hseed : s.mem.floorState ≠ 0) (n : Nat) (hn : effFloor s ≤ n + 1) (hle : n ≤ h) :
+    answer c s .stateAtNumber n = .ok := by
+  have I := inv_reach R
+  unfold Inv at I; rw [hh] at I; obtain ⟨a, IA, _⟩ := I
+  exact stateAtNumber_below hh IA n hseed (by unfold effFloor at hn; rw [lo_of_inv hh IA] at hn; exact hn) hle
+
+/-- Relative to the DURABLE floor (what survives a crash at any point): every block at or above it is
+complete, the probe is truthful, and state by block hash works from one block below it (the
+`oldestKept-1` carve-out survives completion, cancellation and crash alike). -/
+theorem durable_floor_consistent (c : Cfg) (hf : c.fixed = true) (s : St) (R : Reach c s) (h : Nat)
+    (hh : s.db.height = some h) (n : Nat) (hle : n ≤ h) :
+    (lo s.db ≤ n → ∀ q, q.blockLevel = true → answer c s q n = .ok) ∧
+    (answer c s .requireRetained n = .ok → ∀ q, q.blockLevel = true → answer c s q n = .ok) ∧
+    (lo s.db ≤ n + 1 → answer c s .stateAtHash n = .ok) := by
+  have I := inv_reach R
+  unfold Inv at I; rw [hh] at I; obtain ⟨a, IA, _⟩ := I
+  rw [lo_of_inv hh IA]
+  refine ⟨?_, ?_, ?_⟩
+  · intro hn q hq
+    have hp : answer c s .requireRetained n = .ok := by
+      have := (IA.commIff n).mpr ⟨hn, hle⟩
+      simp [answer, this]
+    exact probe_truthful IA n (not_dirty_fixed _ _ hf) hp q hq
+  · intro hp q hq
+    exact probe_truthful IA n (not_dirty_fixed _ _ hf) hp q hq
+  · intro hn
+    exact stateAtHash_below_fixed hh IA hf n hn hle
+
+/-- The BlockHashLag window: in every reachable state the headers of the `blockHashLag` (= 10) blocks below
+the durable floor are still there — `get_block_hash(n - 10)` executed on a retained block `n` finds its
+header. (With `blockHashLag := 1` in the model this theorem fails.) -/
+theorem lag_window_headers_survive (c : Cfg) (s : St) (R : Reach c s) (h : Nat) (hh : s.db.height = some h)
+    (n : Nat) (hn : n ≤ h) (hlag : lo s.db ≤ n + blockHashLag) : answer c s .headerByNumber n = .ok := by
+  have I := inv_reach R
+  unfold Inv at I; rw [hh] at I; obtain ⟨a, IA, _⟩ := I
+  rw [lo_of_inv hh IA] at hlag
+  have := IA.hdrLag n hn hlag
+  simp [answer, allOf, this]
+
+/-! ## below_floor -/
+
+/-- Below the floor: "pruned / not found", never partial or wrong data, for EVERY query. In every reachable
+state: (1) no state reader handed out NOW is answered from incomplete history (no `stale` answer, any query,
+any block); (2) below the durable floor the retention probe and the event filter say `pruned`, and every
+query that reads the block's commitments, state update or transactions, its transaction-hash or L1-message
+lookups says not found; (3) more than one block below it the hash→number mapping is gone, so every by-hash
+query and both state readers (by hash: no floor consulted, the mapping is what refuses; by number: the
+shared floor, or header+mapping when unseeded) say not found. Only the bare header survives, down to the
+lag window. -/
+theorem below_floor_pruned_not_partial (c : Cfg) (hf : c.fixed = true) (s : St) (R : Reach c s) (h : Nat)
+    (hh : s.db.height = some h) :
+    (∀ q n m, answer c s q n ≠ .stale m) ∧
+    (∀ n, n < lo s.db →
+      answer c s .requireRetained n = .pruned ∧ answer c s .eventsFrom n = .pruned ∧
+      answer c s .txLookup n = .notfound ∧ answer c s .l1HandlerMsg n = .notfound ∧
+      ∀ q, q.readsPruned = true → answer c s q n = .notfound) ∧
+    (∀ n, n + 1 < lo s.db →
+      answer c s .numberByHash n = .notfound ∧ answer c s .headerByHash n = .notfound ∧
+      answer c s .stateAtHash n = .notfound ∧ answer c s .stateAtNumber n = .notfound) := by
+  have I := inv_reach R
+  unfold Inv at I; rw [hh] at I; obtain ⟨a, IA, _⟩ := I
+  rw [lo_of_inv hh IA]
+  refine ⟨fun q n m => never_stale hh IA q n m, ?_, ?_⟩
+  · intro n hn
+    obtain ⟨g1, g2, g3⟩ := below_gone IA n hn
+    obtain ⟨l1, l2, _⟩ := IA.lowGone hf n hn
+    have hle : ¬ n > h := by have := IA.ale; omega
+    refine ⟨probe_below IA n hn, ?_, ?_, ?_, fun q hq => below_floor_readsPruned IA q hq n hn⟩
+    · simp [answer, hh, hle, g1]
+    · simp [answer, allOf, l1]
+    · simp [answer, allOf, l2]
+  · intro n hn
+    have h2 := h2n_below IA hf n hn
+    refine ⟨?_, ?_, ?_, stateAtNumber_far_below hh IA hf n hn⟩
+    · simp [answer, allOf, h2]
+    · simp [answer, allOf, h2]
+    · simp [answer, hh, h2]
+
+/-! ## head_state and ContractStorageLastUpdatedBlock -/
+
+/-- PARTIAL. The head state always opens (`HeadState` needs the chain-height key and, on the new backend,
+the head's header) and `ContractStorageLastUpdatedBlock` through it is right for every slot whose last
+write is at or above the durable floor — on the new backend for every slot. (The value getters of the
+head reader — storage, nonce, class hash, class — read the current-state buckets, for which the pruner
+has no delete at all: nothing to prove in the model; the harness compares them with the shadow node.)
+What is missing: `last_update_block_lost_below_floor`. -/
+theorem head_state_partial (c : Cfg) (hf : c.fixed = true) (s : St) (R : Reach c s) (h : Nat)
+    (hh : s.db.height = some h) :
+    headState c s = .ok ∧
+    ∀ lw, lw ≤ h → (c.legacy = false ∨ lo s.db ≤ lw) → lastUpdAtHead c s lw = .ok := by
+  have I := inv_reach R
+  unfold Inv at I; rw [hh] at I; obtain ⟨a, IA, _⟩ := I
+  rw [lo_of_inv hh IA]
+  have hs := headState_ok hh IA
+  refine ⟨hs, fun lw hl hc => ?_⟩
+  unfold lastUpdAtHead
+  rw [hs]
+  simp only
+  rw [lastUpdRead_eq IA hf lw hl]
+  rcases hc with hc | hc
+  · simp [hc]
+  · have : ¬ lw < a := by omega
+    simp [this]
+
+/-- PARTIAL. `ContractStorageLastUpdatedBlock` through a historical reader at a block the node still serves
+(from one below the floor up) is right for every slot whose last write is at or above the durable floor —
+on the new backend for every slot. What is missing: `last_update_block_lost_below_floor`. -/
+theorem last_update_block_partial (c : Cfg) (hf : c.fixed = true) (s : St) (R : Reach c s) (h : Nat)
+    (hh : s.db.height = some h) (hseed : s.mem.floorState ≠ 0) (lw n : Nat) (hl : lw ≤ n) (hn : n ≤ h)
+    (hfl : effFloor s ≤ n + 1) (hc : c.legacy = false ∨ lo s.db ≤ lw) :
+    lastUpdAtNumber c s lw n = .ok ∧ lastUpdAtHash c s lw n = .ok := by
+  have hnum := state_one_below_floor c s R h hh hseed n hfl hn
+  have I := inv_reach R
+  unfold Inv at I; rw [hh] at I; obtain ⟨a, IA, _⟩ := I
+  have hlo := lo_of_inv hh IA
+  have hhash := stateAtHash_below_fixed hh IA hf n (by unfold effFloor at hfl; rw [hlo] at hfl; omega) hn
+  have hr : lastUpdRead c s.db lw = .ok := by
+    rw [lastUpdRead_eq IA hf lw (by omega)]
+    rcases hc with hc | hc
+    · simp [hc]
+    · rw [hlo] at hc
+      have : ¬ lw < a := by omega
+      simp [this]
+  unfold lastUpdAtNumber lastUpdAtHash
+  rw [hnum, hhash]
+  exact ⟨hr, hr⟩
+
+/-- NEGATION (genuine defect of the code in /repo, legacy backend; known finding
+`storage-last-update-block-lost-below-floor-*`): in EVERY reachable state, for every slot whose last
+write is below the durable floor, the head reader and every historical reader the node still hands out
+answer `ContractStorageLastUpdatedBlock` without error but wrongly (the block of an older surviving entry,
+or 0 = never written): the history entry that records the write was deleted with its block. -/
+theorem last_update_block_lost_below_floor (c : Cfg) (hf : c.fixed = true) (hleg : c.legacy = true)
+    (s : St) (R : Reach c s) (h : Nat) (hh : s.db.height = some h) (lw : Nat) (hl : lw < lo s.db) :
+    lastUpdAtHead c s lw = .lost ∧
+    ∀ n, n ≤ h → s.mem.floorState ≠ 0 → effFloor s ≤ n + 1 →
+      lastUpdAtNumber c s lw n = .lost ∧ lastUpdAtHash c s lw n = .lost := by
+  have I := inv_reach R
+  unfold Inv at I; rw [hh] at I; obtain ⟨a, IA, _⟩ := I
+  have hlo := lo_of_inv hh IA
+  rw [hlo] at hl
+  have hr : lastUpdRead c s.db lw = .lost := by
+    rw [lastUpdRead_eq IA hf lw (by have := IA.ale; omega)]
+    simp [hleg, hl]
+  refine ⟨?_, fun n hn hseed hfl => ?_⟩
+  · unfold lastUpdAtHead
+    rw [headState_ok hh IA]
+    exact hr
+  · have hnum := state_one_below_floor c s R h hh hseed n hfl hn
+    have hhash := stateAtHash_below_fixed hh IA hf n (by unfold effFloor at hfl; rw [hlo] at hfl; omega) hn
+    unfold lastUpdAtNumber lastUpdAtHash
+    rw [hnum, hhash]
+    exact ⟨hr, hr⟩
+
+/-- Legacy backend, retained 0, 6 blocks, L1 head 4, the code in /repo. -/
+def repairedCfg : Cfg :=
+  { retained := 0, l2PerPrune := 1, minAge := false, legacy := true, fixed := true, migSkipsMissing := true,
+    migZeroNoop := true }
+/-- One COMPLETE, uninterrupted prune of `[0,4)`. -/
+def prunedTo4 : List Op :=
+  [.crash true, .store, .store, .store, .store, .store, .store, .writeL1 4, .evL1 4, .flush 4, .finish]
+
+/-- … and such states exist: after one complete prune to block 4 a slot last written in block 1 reports a
+wrong last-update block at the head and at blocks 3, 4, 5; the new backend answers correctly. -/
+theorem last_update_block_lost_witness :
+    Reach repairedCfg (run repairedCfg St.init prunedTo4) ∧
+    lo (run repairedCfg St.init prunedTo4).db = 4 ∧
+    lastUpdAtHead repairedCfg (run repairedCfg St.init prunedTo4) 1 = .lost ∧
+    lastUpdAtNumber repairedCfg (run repairedCfg St.init prunedTo4) 1 3 = .lost ∧
+    lastUpdAtHash repairedCfg (run repairedCfg St.init prunedTo4) 1 5 = .lost ∧
+    lastUpdAtHead { repairedCfg with legacy := false } (run { repairedCfg with legacy := false } St.init prunedTo4) 1 = .ok :=
+  ⟨reach_run Reach.init _ (by decide), by decide⟩
+
+/-! ## held_reader -/
+
+/-- PARTIAL. A historical reader that was handed out earlier keeps reading exactly its block's state for as
+long as its block stays at or above one below the floor — on the new backend for ever (its history is never
+pruned). What is missing: `held_reader_across_prune_stale`. -/
+theorem held_reader_partial (c : Cfg) (s : St) (R : Reach c s) (h : Nat) (hh : s.db.height = some h)
+    (b : Nat) (hc : c.legacy = false ∨ effFloor s ≤ b + 1) : heldRead c s b = .ok := by
+  have I := inv_reach R
+  unfold Inv at I; rw [hh] at I; obtain ⟨a, IA, _⟩ := I
+  unfold heldRead
+  rw [hh]
+  simp only
+  apply stateRead_ok
+  intro hleg
+  rcases hc with hc | hc
+  · rw [hleg] at hc; cases hc
+  · unfold effFloor at hc; rw [lo_of_inv hh IA] at hc
+    exact hist_above IA (by omega) (fun m hm1 hm2 => not_dirty_above IA (by omega))
+
+/-- 8 blocks; a reader for block 2 is open; a complete prune of `[0,6)` runs. -/
+def prunedTo6 : List Op :=
+  [.crash true, .store, .store, .store, .store, .store, .store, .store, .store, .writeL1 6, .evL1 6, .flush 6, .finish]
+
+/-- NEGATION (genuine defect of the code in /repo, legacy backend; known finding
+`reader-held-across-prune-stale-value`): a reader for block 2 is admitted before the prune (`ok`); the
+prune is legal and complete; a NEW reader for block 2 is refused afterwards (not found) — but the reader
+that is still open reads, without error, a later block's state (the legacy history reader consults the
+floor only when it is opened). -/
+theorem held_reader_across_prune_stale :
+    answer repairedCfg (run repairedCfg St.init (prunedTo6.take 9)) .stateAtNumber 2 = .ok ∧
+    Reach repairedCfg (run repairedCfg St.init prunedTo6) ∧
+    answer repairedCfg (run repairedCfg St.init prunedTo6) .stateAtNumber 2 = .notfound ∧
+    heldRead repairedCfg (run repairedCfg St.init prunedTo6) 2 = .stale 5 ∧
+    heldRead { repairedCfg with legacy := false } (run { repairedCfg with legacy := false } St.init prunedTo6) 2 = .ok :=
+  ⟨by decide, reach_run Reach.init _ (by decide), by decide⟩
+
+/-! ## stale_new_head_event -/
+
+/-- 8 blocks, L1 head 9 (ahead of the local head), the head is reverted 7 → 3 while the new-head event of
+block 6 still sits in the pruner's 1-slot feed buffer; retained = 1. -/
+def staleCfg : Cfg := { repairedCfg with retained := 1 }
+def staleEvent : List Op :=
+  [.crash true, .store, .store, .store, .store, .store, .store, .store, .store, .writeL1 9,
+   .revert, .revert, .revert, .revert, .evL2 6]
+
+/-- NEGATION (genuine defect of the code in /repo; known finding `head-block-pruned-after-stale-event`):
+everything before the event is a legal history; the event is handled as if block 6 existed: `pruneUpto(5)`.
+With batch threshold 1 the batches `[0,4)` are written — the HEAD BLOCK 3 is pruned (`Head()` fails, no
+oldest retained block), the floor is above the head — and the next batch fails on the missing block 4. -/
+theorem stale_new_head_event_prunes_head_block :
+    Reach staleCfg (run staleCfg St.init staleEvent.dropLast) ∧
+    (run staleCfg St.init staleEvent).db.height = some 3 ∧
+    effFloor (run staleCfg St.init staleEvent) = 5 ∧
+    (let s := run staleCfg St.init (staleEvent ++ [.flush 4])
+     answer staleCfg s .blockByNumber 3 = .notfound ∧ oldest s.db = none ∧ (step staleCfg s (.flush 1)).2 = .err) :=
+  ⟨reach_run Reach.init _ (by decide), by decide⟩
+
+/-- NEGATION, default batch threshold (known finding `shared-floor-above-head-after-stale-event`): the one
+batch fails before anything is written, but the shared `RetentionFloor` was already raised to 5: historical
+state at the head (block 3) and one below is refused until the process restarts. -/
+theorem stale_new_head_event_raises_shared_floor_above_head :
+    (step staleCfg (run staleCfg St.init staleEvent) (.flush 5)).2 = .err ∧
+    (let s := (step staleCfg (run staleCfg St.init staleEvent) (.flush 5)).1
+     lo s.db = 0 ∧ answer staleCfg s .stateAtNumber 3 = .notfound ∧ answer staleCfg s .stateAtNumber 2 = .notfound ∧
+     answer staleCfg s .blockByNumber 3 = .ok) := by decide
+
+/-- With the proposed clamp the same history is legal to its end and the event does nothing
+(`floor_bound_head` is the general statement). -/
+theorem clamped_stale_new_head_event_ignored :
+    let c : Cfg := { staleCfg with l2Clamps := true }
+    Reach c (run c St.init staleEvent) ∧ effFloor (run c St.init staleEvent) = 0 ∧
+    answer c (run c St.init staleEvent) .blockByNumber 3 = .ok ∧
+    answer c (run c St.init staleEvent) .stateAtNumber 3 = .ok :=
+  ⟨reach_run Reach.init _ (by decide), by decide⟩
+
+/-! ## extend_and_revert_ok -/
+
+/-- In every reachable state the chain can be extended (`Store` succeeds), and reverted while the head is
+above the floor (`RevertHead` succeeds); the successor states are reachable again, so everything above
+keeps holding after them. -/
+theorem extend_and_revert_ok (c : Cfg) (s : St) (R : Reach c s) (h : Nat) (hh : s.db.height = some h) :
+    (h + 1 < 2 ^ 64 → (step c s .store).2 = .ok ∧ Reach c (step c s .store).1) ∧
+    (effFloor s < h → (step c s .revert).2 = .ok ∧ Reach c (step c s .revert).1) := by
+  have I := inv_reach R
+  unfold Inv at I; rw [hh] at I; obtain ⟨a, IA, _⟩ := I
+  constructor
+  · intro hL
+    exact ⟨(inv_store hh IA hL).1, Reach.step .store R (fun h' e => by rw [hh] at e; cases e; exact hL)⟩
+  · intro hL
+    have hL' : max a s.mem.keepMax < h := by unfold effFloor at hL; rw [lo_of_inv hh IA] at hL; exact hL
+    exact ⟨(inv_revert hh IA hL').1, Reach.step .revert R ⟨h, hh, hL⟩⟩
+
+
+/-! ## carve-outs and bloom windows -/
 
 /-- The carve-out arithmetic: the `uint64` code `if e > lag { e - lag }` never underflows, and a header
 is deleted iff it is at least `BlockHashLag` below the range end. -/
@@ -92,7 +458,7 @@ unaligned floor survives as long as it is complete. -/
 theorem bloom_windows_survive (c : Cfg) (s : St) (R : Reach c s) (h : Nat) (hh : s.db.height = some h) (w : Nat) :
     s.db.agg w = true ↔ (lo s.db / numBlocksPerFilter ≤ w ∧ (w + 1) * numBlocksPerFilter ≤ h + 1) := by
   have I := inv_reach R
-  unfold Inv at I; rw [hh] at I; obtain ⟨a, IA⟩ := I
+  unfold Inv at I; rw [hh] at I; obtain ⟨a, IA, _⟩ := I
   rw [lo_of_inv hh IA]; exact IA.aggIff w
 
 /-- Consequences for retained blocks: an event query from any block at or above the durable floor finds
@@ -102,7 +468,7 @@ theorem bloom_windows_for_retained (c : Cfg) (s : St) (R : Reach c s) (h : Nat) 
     (∀ n, lo s.db ≤ n → n ≤ h → windowsOk s.db n h = true) ∧
     (effFloor s < h → revertFilterOk s.db h = true) := by
   have I := inv_reach R
-  unfold Inv at I; rw [hh] at I; obtain ⟨a, IA⟩ := I
+  unfold Inv at I; rw [hh] at I; obtain ⟨a, IA, _⟩ := I
   rw [lo_of_inv hh IA]
   refine ⟨fun n h1 h2 => windowsOk_of_inv IA n h1 h2, ?_⟩
   intro hL
@@ -120,191 +486,6 @@ theorem bulk_is_k_stores (c : Cfg) (k : Nat) (h0 : 0 < k) (hk : k < 2 ^ 64) :
       (∀ w, s.db.agg w = (Db.bulk k).agg w) ∧ s.db.l1 = (Db.bulk k).l1 ∧ s.mem = St.init.mem ∧ s.job = .idle :=
   bulk_eq_stores c k h0 hk
 
-/-! ## floor_monotone -/
-
-/-- The durable floor never moves down — across stores, reverts, prunes, interruptions and restarts. -/
-theorem floor_monotone (c : Cfg) (s : St) (op : Op) (R : Reach c s) (L : Legal c s op) :
-    lo s.db ≤ lo (step c s op).1.db :=
-  (step_facts op (inv_reach R) L).loMono
-
-/-- Within one process (no crash, no migration-then-start) the shared `RetentionFloor` never moves down
-(readers never see it lower). -/
-theorem shared_floor_monotone (c : Cfg) (s : St) (op : Op) (R : Reach c s) (L : Legal c s op)
-    (hop : (∀ seed, op ≠ .crash seed) ∧ ∀ mf u, op ≠ .migrate mf u) :
-    s.mem.floorState.toNat ≤ (step c s op).1.mem.floorState.toNat :=
-  (step_facts op (inv_reach R) L).fsMono hop
-
-/-- `raiseTo` / `pruneUpto`: the floor word becomes exactly `max(old, keep)`: no underflow at `keep = 0`
-(guarded), no overflow; `Seed` on a fresh floor gives `max(oldest, 1)` (floor = `max(oldest,1) - 1`). -/
-theorem shared_floor_arith (st keep o : UInt64) :
-    (raiseForPrune st keep).toNat = (if keep.toNat = 0 then st.toNat else max st.toNat keep.toNat) ∧
-    (seedState 0 o).toNat = max o.toNat 1 :=
-  ⟨raiseForPrune_toNat st keep, seedState_zero o⟩
-
-/-! ## retained_untouched -/
-
-/-- In every reachable state: every query — Reader API, retention probe, historical state by number and
-by hash — about a block at or above the floor answers exactly what the unpruned twin answers. -/
-theorem retained_untouched_any (c : Cfg) (s : St) (R : Reach c s) (h : Nat) (hh : s.db.height = some h)
-    (q : Q) (n : Nat) (hn : effFloor s ≤ n) : answer c s q n = twinAnswer (some h) q n := by
-  have I := inv_reach R
-  unfold Inv at I; rw [hh] at I; obtain ⟨a, IA⟩ := I
-  by_cases hle : n ≤ h
-  · have : answer c s q n = .ok :=
-      answer_ok_above hh IA q n (by unfold effFloor at hn; rw [lo_of_inv hh IA] at hn; exact hn) hle
-    rw [this]; simp [twinAnswer, hle]
-  · exact answer_beyond_head hh IA q n (by omega)
-
-/-- FULL STRENGTH (repaired procedure): after ANY interleaving of store / L1-head / prune batches /
-cancellation / write error / crash after any batch write / restart, every query about a block at or above
-the floor equals the unpruned twin. -/
-theorem retained_untouched (c : Cfg) (hf : c.fixed = true) (s : St) (R : Reach c s) (h : Nat)
-    (hh : s.db.height = some h) (q : Q) (n : Nat) (hn : effFloor s ≤ n) :
-    answer c s q n = twinAnswer (some h) q n :=
-  let _ := hf
-  retained_untouched_any c s R h hh q n hn
-
-/-- PARTIAL (procedure as it is at the pinned commit): the same conclusion, but `Reach` excludes a crash
-or write error between two batch writes of one prune (cancellation is covered). What is missing is
-exactly `orig_interrupted_prune_serves_wrong_state` / `orig_interrupted_prune_partial_blocks` below. -/
-theorem retained_untouched_partial (c : Cfg) (hf : c.fixed = false) (s : St) (R : Reach c s) (h : Nat)
-    (hh : s.db.height = some h) (q : Q) (n : Nat) (hn : effFloor s ≤ n) :
-    answer c s q n = twinAnswer (some h) q n :=
-  let _ := hf
-  retained_untouched_any c s R h hh q n hn
-
-/-- Historical state is served from ONE BLOCK BELOW the floor (through the seeded `RetentionFloor`),
-and answers like the twin. Both variants (for `fixed = false` with the restriction built into `Reach`). -/
-theorem state_one_below_floor (c : Cfg) (s : St) (R : Reach c s) (h : Nat) (hh : s.db.height = some h)
-    (hseed : s.mem.floorState ≠ 0) (n : Nat) (hn : effFloor s ≤ n + 1) (hle : n ≤ h) :
-    answer c s .stateAtNumber n = .ok := by
-  have I := inv_reach R
-  unfold Inv at I; rw [hh] at I; obtain ⟨a, IA⟩ := I
-  exact stateAtNumber_below hh IA n hseed (by unfold effFloor at hn; rw [lo_of_inv hh IA] at hn; exact hn) hle
-
-/-- Repaired procedure: relative to the DURABLE floor (what survives a crash at any point), every block at
-or above it is complete, the probe is truthful, and state by block hash works from one block below it
-(the `oldestKept-1` carve-out survives completion, cancellation and crash alike). -/
-theorem durable_floor_consistent (c : Cfg) (hf : c.fixed = true) (s : St) (R : Reach c s) (h : Nat)
-    (hh : s.db.height = some h) (n : Nat) (hle : n ≤ h) :
-    (lo s.db ≤ n → ∀ q, q.blockLevel = true → answer c s q n = .ok) ∧
-    (answer c s .requireRetained n = .ok → ∀ q, q.blockLevel = true → answer c s q n = .ok) ∧
-    (lo s.db ≤ n + 1 → answer c s .stateAtHash n = .ok) := by
-  have I := inv_reach R
-  unfold Inv at I; rw [hh] at I; obtain ⟨a, IA⟩ := I
-  rw [lo_of_inv hh IA]
-  refine ⟨?_, ?_, ?_⟩
-  · intro hn q hq
-    have hp : answer c s .requireRetained n = .ok := by
-      have := (IA.commIff n).mpr ⟨hn, hle⟩
-      simp [answer, this]
-    exact probe_truthful IA n (not_dirty_fixed _ _ hf) hp q hq
-  · intro hp q hq
-    exact probe_truthful IA n (not_dirty_fixed _ _ hf) hp q hq
-  · intro hn
-    exact stateAtHash_below_fixed hh IA hf n hn hle
-
-/-- Below the floor: "pruned / not found", never partial or wrong data. In every reachable state NO state
-reader is ever answered from incomplete history (no `stale` answer, for any query and block), the
-retention probe says `pruned` below the durable floor, and the state backend refuses reads below the
-shared floor. -/
-theorem below_floor_pruned_not_partial (c : Cfg) (s : St) (R : Reach c s) (h : Nat) (hh : s.db.height = some h) :
-    (∀ q n m, answer c s q n ≠ .stale m) ∧
-    (∀ n, n < lo s.db → answer c s .requireRetained n = .pruned) ∧
-    (∀ n, s.mem.floorState ≠ 0 → n < (s.mem.floorState - 1).toNat → answer c s .stateAtNumber n = .notfound) := by
-  have I := inv_reach R
-  unfold Inv at I; rw [hh] at I; obtain ⟨a, IA⟩ := I
-  refine ⟨fun q n m => never_stale hh IA q n m, ?_, fun n hs hn => state_below_floor_notfound c s n hs hn⟩
-  intro n hn
-  rw [lo_of_inv hh IA] at hn
-  exact probe_below IA n hn
-
-/-- The head state always answers. -/
-theorem head_state_untouched (c : Cfg) (s : St) (R : Reach c s) (h : Nat) (hh : s.db.height = some h) :
-    headState c s = .ok := by
-  have I := inv_reach R
-  unfold Inv at I; rw [hh] at I; obtain ⟨a, IA⟩ := I
-  exact headState_ok hh IA
-
-/-! ## extend_and_revert_ok -/
-
-/-- In every reachable state the chain can be extended (`Store` succeeds), and reverted while the head is
-above the floor (`RevertHead` succeeds); the successor states are reachable again, so everything above
-keeps holding after them. -/
-theorem extend_and_revert_ok (c : Cfg) (s : St) (R : Reach c s) (h : Nat) (hh : s.db.height = some h) :
-    (h + 1 < 2 ^ 64 → (step c s .store).2 = .ok ∧ Reach c (step c s .store).1) ∧
-    (effFloor s < h → (step c s .revert).2 = .ok ∧ Reach c (step c s .revert).1) := by
-  have I := inv_reach R
-  unfold Inv at I; rw [hh] at I; obtain ⟨a, IA⟩ := I
-  constructor
-  · intro hL
-    exact ⟨(inv_store hh IA hL).1, Reach.step .store R (fun h' e => by rw [hh] at e; cases e; exact hL)⟩
-  · intro hL
-    have hL' : max a s.mem.keepMax < h := by unfold effFloor at hL; rw [lo_of_inv hh IA] at hL; exact hL
-    exact ⟨(inv_revert hh IA hL').1, Reach.step .revert R ⟨h, hh, hL⟩⟩
-
-/-! ## The defect of the procedure at the pinned commit (DESIGN §7 L10), as proved negations -/
-
-/-- Legacy backend, retained 0, 6 blocks, L1 head 4: the prune of `[0,4)` is killed after its second
-batch write and the node restarts (re-seeded floor). -/
-def origCfg : Cfg := { retained := 0, l2PerPrune := 1, minAge := false, legacy := true, fixed := false }
-def repairedCfg : Cfg := { origCfg with fixed := true }
-def interrupted : List Op :=
-  [.crash true, .store, .store, .store, .store, .store, .store, .writeL1 4, .evL1 4, .flush 1, .flush 1, .crash true]
-
-/-- Everything up to the kill is a legal history (the kill itself is the excluded interruption). -/
-theorem orig_interrupted_prefix_reachable :
-    Reach origCfg (run origCfg St.init interrupted.dropLast) :=
-  reach_run Reach.init _ (by decide)
-
-/-- NEGATION WITNESS 1: after the restart the durable floor is still 0, the shared floor lets block 0
-through, and the historical read at block 0 is served with the state of block 1 — a wrong value
-instead of "pruned". (`retained_untouched` / `below_floor_pruned_not_partial` fail for `fixed = false`
-without the restriction in `Reach`.) -/
-theorem orig_interrupted_prune_serves_wrong_state :
-    lo (run origCfg St.init interrupted).db = 0 ∧
-    answer origCfg (run origCfg St.init interrupted) .stateAtNumber 0 = .stale 1 := by decide
-
-/-- NEGATION WITNESS 2: in the same state the retention probe reports blocks 0 and 1 as retained while
-their hash lookups are gone (block by hash, transaction by hash). -/
-theorem orig_interrupted_prune_partial_blocks :
-    answer origCfg (run origCfg St.init interrupted) .requireRetained 1 = .ok ∧
-    answer origCfg (run origCfg St.init interrupted) .blockByNumber 1 = .ok ∧
-    answer origCfg (run origCfg St.init interrupted) .blockByHash 1 = .notfound ∧
-    answer origCfg (run origCfg St.init interrupted) .txByHash 1 = .notfound := by decide
-
-/-- The same history on the repaired procedure is legal to its end and harmless: the durable floor has
-moved to 2 with the batches, blocks 0 and 1 are reported pruned, block 2 is complete, state at block 1
-(one below the floor) answers — by number and by hash. -/
-theorem repaired_interrupted_prune_consistent :
-    Reach repairedCfg (run repairedCfg St.init interrupted) ∧
-    lo (run repairedCfg St.init interrupted).db = 2 ∧
-    answer repairedCfg (run repairedCfg St.init interrupted) .requireRetained 1 = .pruned ∧
-    answer repairedCfg (run repairedCfg St.init interrupted) .blockByHash 2 = .ok ∧
-    answer repairedCfg (run repairedCfg St.init interrupted) .stateAtNumber 1 = .ok ∧
-    answer repairedCfg (run repairedCfg St.init interrupted) .stateAtHash 1 = .ok ∧
-    answer repairedCfg (run repairedCfg St.init interrupted) .stateAtNumber 0 = .notfound :=
-  ⟨reach_run Reach.init _ (by decide), by decide⟩
-
-/-- A cancelled prune (context cancelled after the first block of `[0,4)`; orderly restart). -/
-def cancelled : List Op :=
-  [.crash true, .store, .store, .store, .store, .store, .store, .writeL1 4, .evL1 4, .flush 1, .flush 0, .finish, .crash true]
-
-/-- NEGATION WITNESS 3 (second, smaller defect of the procedure at the pinned commit): a LEGAL history —
-a prune cancelled by shutdown — after which state by block HASH one block below the floor is not found
-(the hash→number carve-out is only kept on completion), although state by number at the same block
-answers. -/
-theorem orig_cancelled_prune_loses_hash_carve_out :
-    Reach origCfg (run origCfg St.init cancelled) ∧
-    lo (run origCfg St.init cancelled).db = 1 ∧
-    answer origCfg (run origCfg St.init cancelled) .stateAtNumber 0 = .ok ∧
-    answer origCfg (run origCfg St.init cancelled) .stateAtHash 0 = .notfound :=
-  ⟨reach_run Reach.init _ (by decide), by decide⟩
-
-/-- The repaired procedure keeps it. -/
-theorem repaired_cancelled_prune_keeps_hash_carve_out :
-    lo (run repairedCfg St.init cancelled).db = 1 ∧
-    answer repairedCfg (run repairedCfg St.init cancelled) .stateAtHash 0 = .ok := by decide
 
 /-! ## The history-pruner migration (migration/historyprunner) -/
 
@@ -315,16 +496,14 @@ theorem migration_floor_bound (c : Cfg) (h : Nat) (hh : h < 2 ^ 64) (l1 : UInt64
     c.retained.toNat ≤ min l1.toNat h ∧ k.toNat + c.retained.toNat ≤ min l1.toNat h := by
   have := migKeep_bound c h hh l1 mf k hk; omega
 
-/-- `migrate` is one of the operations of `Reach`: every theorem above (`floor_bound`, `floor_monotone`,
-`retained_untouched*`, `state_one_below_floor`, `durable_floor_consistent`, `below_floor_pruned_not_partial`,
-`bloom_windows_survive`, `extend_and_revert_ok`) holds for histories in which the node was started through the
-history-pruner migration at any point (on a database no prune has touched above its cut-off), followed by
-the running pruner, reverts, crashes … In particular, right after it: -/
-theorem migration_then_retained_untouched (c : Cfg) (s : St) (R : Reach c s) (mf : Option UInt64) (u : Bool)
-    (L : Legal c s (.migrate mf u)) (h : Nat) (hh : (step c s (.migrate mf u)).1.db.height = some h)
-    (q : Q) (n : Nat) (hn : effFloor (step c s (.migrate mf u)).1 ≤ n) :
-    answer c (step c s (.migrate mf u)).1 q n = twinAnswer (some h) q n :=
-  retained_untouched_any c _ (Reach.step _ R L) h hh q n hn
+/-- `migrate` is one of the operations of `Reach`: every theorem above holds for histories in which the node
+was started through the history-pruner migration at any point (on a database no prune has touched above
+its cut-off), followed by the running pruner, reverts, crashes … In particular, right after it: -/
+theorem migration_then_retained_untouched (c : Cfg) (s : St) (R : Reach c s) (u : Bool)
+    (L : Legal c s (.migrate u)) (h : Nat) (hh : (step c s (.migrate u)).1.db.height = some h)
+    (q : Q) (n : Nat) (hn : effFloor (step c s (.migrate u)).1 ≤ n) :
+    answer c (step c s (.migrate u)).1 q n = twinAnswer (some h) q n :=
+  retained_untouched c _ (Reach.step _ R L) h hh q n hn
 
 open Mig in
 /-- KEY INJECTIVITY across the three history kinds: two well-formed keys with the same history key, or the
@@ -359,41 +538,17 @@ theorem nonce_tag_for_class_hash_collides :
     scratchKeyNonceForClass nonceAt5 = scratchKeyNonceForClass classAt5 ∧
     scratchKey nonceAt5 ≠ scratchKey classAt5 := by decide
 
-/-- Pinned-commit migration, retained = pivot (or a min-age floor of 0): cut-off 0. -/
-def zeroCutoff : List Op :=
-  [.crash true, .store, .store, .store, .store, .store, .store, .writeL1 3, .migrate none false]
 
-/-- NEGATION WITNESS (defect of the migration at the pinned commit): with `retained = 3 = min(L1, head)` the
-cut-off is block 0 — nothing may be pruned — yet the migration fails (`GetBlockHeaderByNumber(0-1)`) after
-having wiped the lookup buckets: every block's hash lookups are gone. -/
-theorem migration_cutoff_zero_fails :
-    let c : Cfg := { origCfg with retained := 3 }
-    Reach c (run c St.init zeroCutoff.dropLast) ∧
-    (step c (run c St.init zeroCutoff.dropLast) (.migrate none false)).2 = .err ∧
-    effFloor (run c St.init zeroCutoff) = 0 ∧
-    answer c (run c St.init zeroCutoff) .blockByNumber 4 = .ok ∧
-    answer c (run c St.init zeroCutoff) .blockByHash 4 = .notfound ∧
-    answer c (run c St.init zeroCutoff) .txByHash 0 = .notfound :=
-  ⟨reach_run Reach.init _ (by decide), by decide⟩
-
-/-- NEGATION WITNESS (second defect of the migration at the pinned commit): one retained block whose state
-diff writes zero to an empty storage slot (no history entry) makes the stager fail — after the lookup
-buckets were wiped and the blocks below the cut-off deleted. -/
-theorem migration_unchanged_slot_fails :
-    let c : Cfg := { origCfg with retained := 1 }
-    let ops : List Op := [.crash true, .store, .store, .store, .store, .store, .store, .writeL1 3]
-    (step c (run c St.init ops) (.migrate none true)).2 = .err ∧
-    answer c (step c (run c St.init ops) (.migrate none true)).1 .blockByNumber 4 = .ok ∧
-    answer c (step c (run c St.init ops) (.migrate none true)).1 .blockByHash 4 = .notfound := by decide
-
-/-- With the two proposed repairs the same starts are harmless: cut-off 0 is "nothing to prune", an
-unchanged slot is skipped, and both are legal histories (covered by every theorem above). -/
-theorem repaired_migration_handles_both :
-    let c : Cfg := { repairedCfg with retained := 3, migSkipsMissing := true, migZeroNoop := true }
+/-- The migration as it is in /repo (322dd0d, 3c301f0): a cut-off of block 0 is "nothing to prune", a
+retained block whose state diff names a slot without history entry is skipped; both starts are legal
+histories (covered by every theorem above) and leave the node complete. -/
+theorem migration_handles_zero_cutoff_and_unchanged_slot :
+    let c : Cfg := { repairedCfg with retained := 3 }
+    let zeroCutoff : List Op := [.crash true, .store, .store, .store, .store, .store, .store, .writeL1 3, .migrate false]
     Reach c (run c St.init zeroCutoff) ∧
     answer c (run c St.init zeroCutoff) .blockByHash 4 = .ok ∧
     (let c1 : Cfg := { c with retained := 1 }
-     let ops : List Op := [.crash true, .store, .store, .store, .store, .store, .store, .writeL1 3, .migrate none true]
+     let ops : List Op := [.crash true, .store, .store, .store, .store, .store, .store, .writeL1 3, .migrate true]
      Reach c1 (run c1 St.init ops) ∧ lo (run c1 St.init ops).db = 2 ∧
      answer c1 (run c1 St.init ops) .blockByHash 2 = .ok ∧ answer c1 (run c1 St.init ops) .stateAtHash 1 = .ok ∧
      answer c1 (run c1 St.init ops) .requireRetained 1 = .pruned) :=
@@ -407,11 +562,23 @@ example : Reach repairedCfg (run repairedCfg St.init
   reach_run Reach.init _ (by decide)
 example : effFloor (run repairedCfg St.init
     [.crash true, .store, .store, .store, .store, .store, .writeL1 3, .evL1 3, .flush 3, .finish]) = 3 := by decide
+-- the same history interrupted by a crash after the first batch write is reachable too (repaired procedure)
+example : Reach repairedCfg (run repairedCfg St.init
+    [.crash true, .store, .store, .store, .store, .store, .writeL1 3, .evL1 3, .flush 1, .crash true]) :=
+  reach_run Reach.init _ (by decide)
+-- min-age: timestamps 10·n, cut-off 35: the ticker samples block 4, an L1 head at 6 prunes only to 4
+def ageCfg : Cfg := { repairedCfg with minAge := true, ts := fun n => 10 * n }
+def ageOps : List Op :=
+  [.crash true, .store, .store, .store, .store, .store, .store, .store, .store, .writeL1 6, .advance 35, .tick,
+   .evL1 6, .flush 4, .finish]
+example : Reach ageCfg (run ageCfg St.init ageOps) := reach_run Reach.init _ (by decide)
+example : effFloor (run ageCfg St.init ageOps) = 4 ∧ (run ageCfg St.init ageOps).cutoff = 35 := by decide
+example : Mono ageCfg.ts := fun i j h => by show 10 * i ≤ 10 * j; omega
 -- guards: retained larger than the chain / L1 ahead of the head → no prune, no underflow
-example : l1Keep { origCfg with retained := 1000 } 0 10 5 = none := by decide
-example : l1Keep origCfg 0 10 12 = none := by decide
-example : l1Keep { origCfg with retained := 2 } 0 10 5 = some 3 := by decide
-example : l2Guard { origCfg with retained := 2 } 9 5 = false ∧ l2Keep { origCfg with retained := 2 } 0 5 false = 3 := by decide
+example : l1Keep { repairedCfg with retained := 1000 } 0 10 5 = none := by decide
+example : l1Keep repairedCfg 0 10 12 = none := by decide
+example : l1Keep { repairedCfg with retained := 2 } 0 10 5 = some 3 := by decide
+example : l2Guard { repairedCfg with retained := 2 } 9 5 = false ∧ l2Keep { repairedCfg with retained := 2 } 0 5 false = 3 := by decide
 example : headerEnd64 12 = 2 ∧ headerEnd64 10 = 0 ∧ headerEnd64 3 = 0 := by decide
 example : findOldestAtOrAfter (fun n => 10 * n) 0 9 35 = some 4 := by decide
 -- unaligned range end inside window 1: window 0 goes, window 1 (it indexes retained blocks) stays
